@@ -97,19 +97,34 @@ def _case(draw):
     if d.chance(0.15):
         cfg = gen.config_d(d)
     if k < 7:
-        kind, tpl = d.pick(TEMPLATES)
-        sem = d.pick(SCHEMES) + d.pick(TAILS)
-        form = d.pick(["bare", "bare", "angle"]) if kind not in ("auto", "linkify") else "auto"
-        body, nonraw = spell(d, sem, form)
-        pre = d.pick(PREFIXES)
-        suf = d.pick(PREFIXES) if d.chance(0.2) else ""
-        raw = pre + body + suf
-        if form == "angle":
-            raw = "<" + raw + ">"
-        src = tpl.replace("{u}", raw)
-        if kind == "linkify" and not cfg["linkify"]:
-            cfg = C.simple("js-default", linkify=True)
-        return {"kind": "template", "src": src, "cfg": cfg, "sem": sem, "nonraw": bool(nonraw or pre or suf)}
+        # one to three constructs in one document (one instance): validators must not carry a verdict
+        # from one URL to the next
+        parts = []
+        sems = []
+        anynonraw = False
+        scheme = None
+        for j in range(d.weighted([(6, 1), (3, 2), (1, 3)])):
+            kind, tpl = d.pick(TEMPLATES)
+            scheme = scheme if (scheme and d.chance(0.4)) else d.pick(SCHEMES)
+            sem = scheme + d.pick(TAILS)
+            form = d.pick(["bare", "bare", "angle"]) if kind not in ("auto", "linkify") else "auto"
+            body, nonraw = spell(d, sem, form)
+            pre = d.pick(PREFIXES)
+            suf = d.pick(PREFIXES) if d.chance(0.2) else ""
+            raw = pre + body + suf
+            if form == "angle":
+                raw = "<" + raw + ">"
+            part = tpl.replace("{u}", raw)
+            if j:
+                part = part.replace("[r]", f"[r{j}]").replace("[a]:", f"[a{j}]:").replace("[a]\n", f"[a{j}]\n")
+            parts.append(part)
+            sems.append(sem)
+            anynonraw |= bool(nonraw or pre or suf)
+            if kind == "linkify" and not cfg["linkify"]:
+                cfg = C.simple("js-default", linkify=True)
+        src = "\n\n".join(parts)
+        sem = next((x for x in sems if browser_bad(x)), sems[0])
+        return {"kind": "template", "src": src, "cfg": cfg, "sem": sem, "nonraw": anynonraw, "n": len(parts)}
     if k == 7:
         src = "<" + d.pick(EMAIL_LOCALS) + d.pick(["", d.pick(EMAIL_LOCALS)]) + "@" + d.pick(["example.com", "b.c", "xn--n3h.net", "a-b.c", "B.C"]) + ">"
         return {"kind": "email", "src": src, "cfg": cfg, "sem": "mailto:", "nonraw": False}
